@@ -76,6 +76,7 @@ type Trace struct {
 	Seed     uint64 `json:"seed"`
 	Config   Config `json:"config"`
 	Steps    []Step `json:"steps"`
+	Aux      json.RawMessage `json:"aux,omitempty"` // property-specific part of a replay (schedule variant, fault plan ...)
 }
 
 func (t *Trace) JSON() []byte {
